@@ -98,3 +98,28 @@ func ZZ_C08_T1e_mixed_batch_equals_sequential() {
 	zzAssert("T1e.batch-equals-direct-nodes", zzSameKV(sa, sc))
 	zzReach("T1e.done")
 }
+
+// T1f: the root binds values of every length, including values that have the size of a hash: two
+// single-key trees holding arbitrary values of 0, 1, 31, 32 or 33 bytes have the same root only if
+// the values are the same (a leaf must store the HASH of the value, whatever the value looks like -
+// else {k: x} and {k: Hash(x)} would commit to the same root). A counterexample is at model level: it
+// names a value that EQUALS a hash output, which the solver picks under the uninterpreted hash and
+// a native run with SHA-256 cannot be handed.
+//
+//zz:harness unwind=80 maxpaths=200000 timebudget=1500 panic=violation:T1.no-panic replay=model
+//zz:reach T1f.done T1f.same-root
+func ZZ_C08_T1f_root_binds_values_of_any_length() {
+	a, _ := zzNewTree()
+	b, _ := zzNewTree()
+	zzDistinctPositions(a, 1)
+	lens := []int{0, 1, 31, 32, 33}
+	va := zzBytes("va", lens[zzConcrete(zzInt("lenA"), 0, 4)])
+	vb := zzBytes("vb", lens[zzConcrete(zzInt("lenB"), 0, 4)])
+	zzCommit(a, valueOp{key: zzUserKey(0), value: va, op: opSet})
+	zzCommit(b, valueOp{key: zzUserKey(0), value: vb, op: opSet})
+	if bytes.Equal(a.Root(), b.Root()) {
+		zzReach("T1f.same-root")
+		zzAssert("T1f.equal-roots-mean-equal-values", bytes.Equal(va, vb))
+	}
+	zzReach("T1f.done")
+}
